@@ -18,7 +18,9 @@
 package version
 
 import (
+	"errors"
 	"fmt"
+	"io"
 	"os"
 	"path/filepath"
 	"sync"
@@ -247,6 +249,13 @@ func (vs *storeVersionSet) recover() error {
 	// read edit log
 	for reader.Next() {
 		record, err := reader.Read()
+		if errors.Is(err, io.ErrUnexpectedEOF) {
+			// NOTE: the last record is incomplete(writing it was interrupted, so its commit never returned success),
+			// it is the end of the journal, a new manifest file will be created with a snapshot after recovering.
+			versionLogger.Warn("ignore incomplete last record of manifest file",
+				logger.String("manifest", manifestPath))
+			break
+		}
 		if err != nil {
 			return fmt.Errorf("recover data from manifest file error:%s", err)
 		}
